@@ -83,7 +83,7 @@ def preprocess(text, defs):
                 if not stack:
                     raise TranslateError("#endif without #if")
                 stack.pop()
-            elif d.startswith(("include", "define")):
+            elif d.startswith(("include", "define", "undef", "pragma", "error", "warning", "line")):
                 pass
             else:
                 raise TranslateError("unsupported preprocessor line: " + s)
@@ -274,7 +274,8 @@ class Fn:
         self.need(e[0] == "call", "scalar cast of a non-extraction")
         f, args = e[1], e[2]
         table = {"_mm_extract_epi16": 16, "_mm_cvtsi128_si32": 32, "_mm256_extract_epi8": 8,
-                 "_mm256_extract_epi16": 16, "_mm256_extract_epi32": 32}
+                 "_mm256_extract_epi16": 16, "_mm256_extract_epi32": 32,
+                 "_mm_extract_epi8": 8, "_mm_extract_epi32": 32, "_mm256_cvtsi256_si32": 32}
         self.need(f in table, "unsupported scalar extraction %s" % f)
         wbits = table[f]
         s, b = self.vec(args[0])
@@ -382,7 +383,7 @@ class Fn:
             a, ba = v(0); same(ba)
             idx = self.const(args[1]); self.need(idx in (0, 1), "half index out of range")
             return "(extract_half (m := %d) %s %s %d)" % (self.lanes(256), z, a, idx), ("vec", 256)
-        if base in ("extract_epi16", "cvtsi128_si32", "extract_epi8", "extract_epi32"):
+        if base in ("extract_epi16", "cvtsi128_si32", "extract_epi8", "extract_epi32", "cvtsi256_si32"):
             return self.extract(("call", f, args), None)
         raise TranslateError("%s: intrinsic %s is not in the semantics table" % (self.name, f))
 
